@@ -69,7 +69,7 @@ def _run_z3(args):
 def run_cvc5(text: str, timeout_s: int):
     t0 = time.time()
     with tempfile.NamedTemporaryFile("w", suffix=".smt2", delete=False) as f:
-        f.write("(set-logic ALL)\n" + text.replace("(check-sat)", "") + "\n(check-sat)\n")
+        f.write("(set-logic ALL)\n" + text.replace("(check-sat)", "").replace("seq.nth_u", "seq.nth").replace("seq.nth_i", "seq.nth") + "\n(check-sat)\n")
         path = f.name
     try:
         p = subprocess.run(["/usr/bin/cvc5", "--strings-exp", f"--tlimit={timeout_s * 1000}", path], capture_output=True, text=True,
@@ -103,17 +103,30 @@ def discharge(vcs, timeout_ms: int = 10000, both: bool = False):
             for c in g.children():
                 out.extend(conjuncts(c))
             return out
+        if z3.is_implies(g):
+            a, b = g.children()
+            return [z3.Implies(a, c) for c in conjuncts(b)]
+        if z3.is_quantifier(g) and g.is_forall():
+            n = g.num_vars()
+            vs = [z3.Const(g.var_name(i), g.var_sort(i)) for i in range(n)]
+            body = z3.substitute_vars(g.body(), *reversed(vs))
+            parts = conjuncts(body)
+            if len(parts) > 1:
+                return [z3.ForAll(vs, c) for c in parts]
         return [g]
 
     parts = []          # per vc: list of smt2 texts (one query per top-level conjunct of the goal: small queries are stable ones)
     for vc in vcs:
-        g = z3.simplify(vc.goal) if z3.is_expr(vc.goal) else z3.BoolVal(bool(vc.goal))
-        vc.goal = g
-        if z3.is_true(g):
+        raw = vc.goal if z3.is_expr(vc.goal) else z3.BoolVal(bool(vc.goal))
+        # split BEFORE simplification (simplify turns => into a flat disjunction); queries keep the un-simplified terms
+        # (simplify rewrites Nth into seq.nth_i/nth_u, which the triggers of the instantiated lemmas do not match)
+        cs = [c for c in conjuncts(raw) if not z3.is_true(z3.simplify(c))]
+        vc.goal = z3.simplify(raw)
+        if not cs:
             vc.status, vc.backend, vc.seconds = "discharged", "z3-simplify", 0.0
             parts.append(None)
         else:
-            parts.append([to_smt2(vc.pc, c) for c in conjuncts(g) if not z3.is_true(c)])
+            parts.append([to_smt2(vc.pc, c) for c in cs])
     jobs = [(t, timeout_ms) for ts in parts if ts is not None for t in ts]
     results = pool().map(_run_z3, jobs, chunksize=2) if jobs else []
     it = iter(results)
